@@ -34,6 +34,8 @@
 namespace cfg {
 #if CFG_ELEM == 1
 typedef uint8_t T;
+#elif CFG_ELEM == 2
+typedef signed char T;
 #elif CFG_ELEM == 4
 typedef int32_t T;
 #elif CFG_ELEM == 12
